@@ -259,6 +259,19 @@ func init() {
 		}
 		return one(v)
 	}
+	I["(github.com/cosmos/cosmos-sdk/types.Context).HeaderInfo"] = func(fc *FCtx, st *State, e *ast.CallExpr, r *Val, a []Val) []Val {
+		// header info is an (uninterpreted) function of the context; its Hash field is `ctx.HeaderHash()` in specs
+		fc.ctxTheory()
+		hs := fc.U.SortOf(fc.resT(e))
+		fc.U.Fun("ctx_headerinfo", []*Sort{r.S}, hs)
+		fc.U.Fun("ctx_headerhash", []*Sort{r.S}, fc.U.BzSort())
+		v := Val{T: app("ctx_headerinfo", r.T), S: hs, GoT: fc.resT(e)}
+		st.assume(fc.U.WF(v))
+		if fv, ok := fieldSel(v, "Hash"); ok && isBz(fv.S) {
+			st.assume(fmt.Sprintf("(= %s (ctx_headerhash %s))", fv.T, r.T))
+		}
+		return one(v)
+	}
 	I["github.com/cosmos/cosmos-sdk/types.UnwrapSDKContext"] = func(fc *FCtx, st *State, e *ast.CallExpr, r *Val, a []Val) []Val {
 		s := fc.U.opaque("Ctx")
 		fc.U.Fun("unwrap_ctx", []*Sort{a[0].S}, s)
